@@ -36,10 +36,12 @@ def run(ctx):
               "distinct = distinct case lines. Library outcomes (xpath value kind, json/jsonpath success) are inputs of the "
               "model and are taken from the observation; lower/upper/replace with an empty pattern are generated on ASCII only"),
         key_fn=key_fn,
-        translators=[("gofn-mp", "GoFnMpGen.v"), ("lockflow", "LockFlowGen.v")],
+        translators=[("gofn-mp", "GoFnMpGen.v"), ("lockflow", "LockFlowGen.v"), ("bodysinks", "BodySinksGen.v")],
         # Properties/C19_wire.v: announced-versus-arriving body sizes and the lock-flow theorems (extra obligations);
         # Gen/LockFlow_bridge.v: the check evaluated on the skeletons re-read from lib/netutil/dial.go
-        bridge_files=["Gen/GoFnMp_bridge.v", "Gen/LockFlow_bridge.v", "Properties/C19_wire.v"],
+        # Gen/BodySinks_bridge.v: every place of the http-family gun packages that consumes a body uses one of the two modelled sinks,
+        # and none looks at the announced length
+        bridge_files=["Gen/GoFnMp_bridge.v", "Gen/LockFlow_bridge.v", "Gen/BodySinks_bridge.v", "Properties/C19_wire.v"],
         trusted=[
             "extraction: ExtrOcamlBasic only; OCaml driver ocaml/C19/main.ml (incl. its copy of str.ParseStringFunc for modifier text) + ocaml/common/conv.ml",
             "correspondence harness harness/cmd/hC19 (real postprocessors under recover; scripted TCP target; real config decoder, "
